@@ -13,7 +13,7 @@
    ndarrays or scalars in any order, and [rins] are their underlying
    buffers/scalars in the same order. *)
 From Coq Require Import ZArith QArith List Bool Arith.
-From Verif Require Import Base.Num Lib.Axis C17.Arr C17.Model C17.Proofs.
+From Verif Require Import Base.Num Lib.Axis C17.Arr C17.Model C17.Proofs C17.ProofsDisc C17.Corr C17.Refuted.
 Import ListNotations.
 
 (* Wrapping an array of matching dtype and shape shares memory with it and
@@ -147,3 +147,101 @@ Theorem ufunc_changes_only_out :
     rd st' j = rd st j.
 Proof. exact @raw_frame. Qed.
 Print Assumptions ufunc_changes_only_out.
+
+(* ------------------------------------------------------------------------
+   FULL STATEMENT (kept visible; FALSE of the faithful model):
+     forall NP st sp ins kw rins l st',
+       map_opt tens_unwrap ins = Some rins ->
+       raw_ufunc cast NP st MCall kw rins [None] = Ok (l, st') ->
+       exists rets, tens_ufunc cast NP st sp 1 MCall ins kw [] = Ok (rets, st').
+   Refuted by np.add(x, np.ones((2, 3))) with x in rn(3), evaluated with the
+   exact semantics of np.add (finding tensor-call-broadcast-grow); the provable
+   restriction is tensor_call_complete_partial above. *)
+Theorem tensor_call_complete_refuted :
+  exists (NP : @npsem Q) st sp ins kw rins l st',
+    map_opt tens_unwrap ins = Some rins
+    /\ raw_ufunc castQ NP st MCall kw rins [None] = Ok (l, st')
+    /\ tens_ufunc castQ NP st sp 1 MCall ins kw [] = Err EValue.
+Proof. exact call_complete_refuted. Qed.
+
+(* np.negative(x, dtype='float32'), x in rn(3, weighting=[1,2,3]): NumPy returns,
+   ODL raises ValueError (finding tensor-dtype-kw-array-weighting) *)
+Theorem tensor_dtype_kw_array_weighting_refuted :
+  exists l st', raw_ufunc castQ NPneg32 st_grow MCall kw32 [RopBuf 0] [None] = Ok (l, st')
+  /\ tens_ufunc castQ NPneg32 st_grow rn3w 1 MCall [OpTens rn3w 0] kw32 [] = Err EValue.
+Proof. exact dtype_kw_array_weighting_refuted. Qed.
+
+(* ---------------- discretized elements ---------------- *)
+(* np.<ufunc>(x, ...) on DiscretizedSpaceElements mixed with arrays, scalars,
+   tensors, without out (or out=(None,..)): same store as NumPy on the underlying
+   arrays; each result is a DiscretizedSpaceElement with the PARTITION OF SELF
+   over NumPy's buffer, with matching shape and dtype. *)
+Theorem discr_call_transparent :
+  forall (T : Type) (cast : dt -> dt -> T -> T) (NP : @npsem T) (st : @store T) (ds : dspace)
+         (nout k : nat) (ins : list (@operand T)) (kw : kwargs) (rins : list (@rop T))
+         (rets : list (@operand T)) (st' : @store T),
+  (k = 0 \/ k = nout)%nat ->
+  map_opt tens_unwrap (map to_tensor ins) = Some rins ->
+  disc_ufunc cast NP st ds nout MCall ins kw (repeat None k) = Ok (rets, st') ->
+  exists rrets,
+    raw_ufunc cast NP st MCall (kw_drop_keepdims kw) rins (repeat None nout) = Ok (rrets, st')
+    /\ Forall2 (fun r rr => exists rs id, r = OpDisc rs id /\ rr = RRBuf id
+                  /\ ds_axes rs = ds_axes ds
+                  /\ ts_shape (ds_ts rs) = a_shape (rd st' id) /\ ts_dt (ds_ts rs) = a_dt (rd st' id)
+                  /\ map ax_n (ds_axes ds) = a_shape (rd st' id))
+               rets rrets.
+Proof. exact @disc_call_sound. Qed.
+Print Assumptions discr_call_transparent.
+
+(* reduce / accumulate / outer / at on discretized elements without out: same
+   store as NumPy; scalars and None are passed through; an array result is a
+   DiscretizedSpaceElement over NumPy's buffer with its shape and dtype whose
+   partition is self's (accumulate) resp. self's restricted to the axes the code
+   keeps (reduce). *)
+Theorem discr_method_transparent :
+  forall (T : Type) (cast : dt -> dt -> T -> T) (NP : @npsem T) (st : @store T) (ds : dspace)
+         (nout : nat) (m : meth) (ins : list (@operand T)) (kw : kwargs) (rins : list (@rop T))
+         (outs : list (option (@operand T))) (rets : list (@operand T)) (st' : @store T),
+  is_call m = false ->
+  (outs = [] \/ outs = [None]) ->
+  map_opt tens_unwrap (map to_tensor ins) = Some rins ->
+  disc_ufunc cast NP st ds nout m ins kw outs = Ok (rets, st') ->
+  exists rr,
+    raw_ufunc cast NP st m (kw_drop_keepdims kw) rins (if is_at m then [] else [None]) = Ok ([rr], st')
+    /\ exists r, rets = [r] /\
+       match rr with
+       | RRScal v => r = OpScal v
+       | RRNone => r = OpNone
+       | RRBuf id =>
+           exists rs, r = OpDisc rs id
+             /\ ts_shape (ds_ts rs) = a_shape (rd st' id) /\ ts_dt (ds_ts rs) = a_dt (rd st' id)
+             /\ (m = MAccumulate -> ds_axes rs = ds_axes ds)
+             /\ (m = MReduce -> ds_axes rs = pick dummy_ax (ds_axes ds) (kept_axes (ndim ds) (kw_axis kw)))
+       end.
+Proof. exact @disc_meth_sound. Qed.
+Print Assumptions discr_method_transparent.
+
+(* Which axes remain after reduce: for every rank and every list of
+   NON-NEGATIVE axes (int or tuple) and for axis absent, the code keeps exactly
+   the axes NumPy keeps (those not reduced, in order). *)
+Theorem discr_reduce_kept_axes :
+  forall (nd : nat),
+    kept_axes nd AxAbsent = filter (fun i => negb (existsb (Nat.eqb i) [0%nat])) (seq 0 nd)
+    /\ (forall z, (0 <= z)%Z ->
+          kept_axes nd (AxInt z) = filter (fun i => negb (existsb (Nat.eqb i) [Z.to_nat z])) (seq 0 nd))
+    /\ (forall l, Forall (fun z => (0 <= z)%Z) l ->
+          kept_axes nd (AxTuple l) = filter (fun i => negb (existsb (Nat.eqb i) (map Z.to_nat l))) (seq 0 nd)).
+Proof.
+  intros nd. split; [exact (kept_axes_absent nd) | split;
+    [exact (kept_axes_int_nonneg nd) | exact (kept_axes_tuple_nonneg nd)]].
+Qed.
+Print Assumptions discr_reduce_kept_axes.
+
+(* FULL STATEMENT (FALSE): the same for negative axes.  Refuted by
+   np.add.reduce(y, axis=-1), y in uniform_discr([0,0],[1,3],(2,3)): NumPy returns
+   [3, 12], ODL raises ValueError (finding discr-reduce-negative-axis). *)
+Theorem discr_reduce_negative_axis_refuted :
+  (exists l st', raw_ufunc castQ NPadd st_d MReduce kwm1 [RopBuf 0] [None] = Ok (l, st')
+                 /\ a_shape (rd st' 1) = [2%nat] /\ a_data (rd st' 1) = [3; 12]%Q)
+  /\ disc_ufunc castQ NPadd st_d d23 1 MReduce [OpDisc d23 0] kwm1 [] = Err EValue.
+Proof. exact C17.Refuted.discr_reduce_negative_axis_refuted. Qed.
